@@ -3,7 +3,7 @@ from grpb import *
 from grpa import mc_module
 LEVEL = "model_checking"
 CONSTS = [[], [["k", "v"]], [["k", "v"], ["k2", "é\"\\"]]]
-LABELS = [["x"], ["x", "y"]]
+LABELS = [["x"], ["x", "y"], ["y", "x"]]      # incl. a list that is not in ascending order
 BUCKETS = [[], [1, 2], [5]]          # scaled by 0.5 in the harness -> 0.5, 1.0 / 2.5
 
 
